@@ -252,13 +252,44 @@ func ruleCloneCarries(c *Ctx) {
 			okAll, found := true, false
 			for _, in := range instrsOf(fn) {
 				st, ok := isStoreTo(in, f)
-				if !ok || st.Addr.(*ssa.FieldAddr).X != ssa.Value(alloc) {
+				if !ok || outerBase(st.Addr.(*ssa.FieldAddr).X) != ssa.Value(alloc) {
 					continue
 				}
 				found = true
 				b, lf := loadedField(stripValue(st.Val))
 				if lf != f || b != ssa.Value(recv) {
 					okAll = false
+				}
+			}
+			// the field lives in an embedded helper struct that is copied as a whole (`keyClock: sk.keyClock`)
+			if !found {
+				for _, in := range instrsOf(fn) {
+					st, ok := in.(*ssa.Store)
+					if !ok {
+						continue
+					}
+					fa, ok := st.Addr.(*ssa.FieldAddr)
+					if !ok || fa.X != ssa.Value(alloc) || !fieldOf(fa).Embedded() {
+						continue
+					}
+					est, ok := deref(fieldOf(fa).Type()).Underlying().(*types.Struct)
+					if !ok {
+						continue
+					}
+					has := false
+					for j := 0; j < est.NumFields(); j++ {
+						if est.Field(j) == f {
+							has = true
+						}
+					}
+					if !has {
+						continue
+					}
+					found = true
+					b, lf := loadedField(st.Val)
+					if lf != fieldOf(fa) || b != ssa.Value(recv) {
+						okAll = false
+					}
 				}
 			}
 			if found && okAll {
@@ -1089,6 +1120,12 @@ func ruleNameObjectAgree(c *Ctx) {
 		if a == b || sameValue(a, b) {
 			return true
 		}
+		// two reads of one variable that is assigned once (a parameter a closure captures lives in a cell)
+		if ca, _ := singleStoreCell(a); ca != nil {
+			if cb, _ := singleStoreCell(b); cb == ca {
+				return true
+			}
+		}
 		ka, oka := a.(*ssa.Const)
 		kb, okb := b.(*ssa.Const)
 		return oka && okb && ka.Value != nil && kb.Value != nil && ka.Value.ExactString() == kb.Value.ExactString()
@@ -1121,6 +1158,17 @@ func ruleNameObjectAgree(c *Ctx) {
 			if cntS != 1 || cntA != 1 {
 				continue
 			}
+			// the callee uses its string parameter as a key name: it hands it to a keyspace lookup/removal or to the
+			// helper that records a modification (a pattern or an element text is not a name)
+			nameIdx := -1
+			for i, a := range call.Call.Args {
+				if a == nameArg {
+					nameIdx = i
+				}
+			}
+			if nameIdx < 0 || nameIdx >= len(g.Params) || !usedAsKeyName(c, g, g.Params[nameIdx], 0) {
+				continue
+			}
 			out := map[ssa.Value]bool{}
 			if !origins(aggArg, 0, map[ssa.Value]bool{}, out) || len(out) == 0 {
 				continue // a parameter or an object built here: nothing to compare with
@@ -1144,6 +1192,42 @@ func ruleNameObjectAgree(c *Ctx) {
 	if n == 0 {
 		c.S.Trivial("R-name-object-agree", "none", "-", "no call passes a key name together with an aggregate obtained by a lookup in the same function")
 	}
+}
+
+// usedAsKeyName: the string parameter p of g is passed on as the key of a keyspace dictionary operation, or to a method
+// of the command object / database that takes only a key name (the modification helper, a lookup).
+func usedAsKeyName(c *Ctx, g *ssa.Function, p *ssa.Parameter, depth int) bool {
+	if depth > 2 || g == nil {
+		return false
+	}
+	fData := c.Field("dataStore", "data")
+	for _, in := range instrsOf(g) {
+		call, ok := in.(ssa.CallInstruction)
+		if !ok {
+			continue
+		}
+		h := call.Common().StaticCallee()
+		if h == nil || !c.InPkg(h) {
+			continue
+		}
+		for i, a := range call.Common().Args {
+			if a != ssa.Value(p) {
+				continue
+			}
+			if h.Signature.Recv() != nil && c.isPkgType(h.Signature.Recv().Type(), "redisDict") && len(call.Common().Args) > 0 {
+				if _, f := loadedField(call.Common().Args[0]); f == fData && fData != nil {
+					return true
+				}
+			}
+			if h.Signature.Recv() != nil && (c.isPkgType(h.Signature.Recv().Type(), "dataStoreCommand") || c.isPkgType(h.Signature.Recv().Type(), "dataStore")) && h.Signature.Params().Len() == 1 {
+				return true
+			}
+			if i < len(h.Params) && usedAsKeyName(c, h, h.Params[i], depth+1) {
+				return true
+			}
+		}
+	}
+	return false
 }
 
 // ---------------------------------------------------------------- R-C10-bump-needs-change
